@@ -144,7 +144,7 @@ static Table parse(const uint32_t *t) {
 // the C++ provider. `mode` selects how returned vectors are built:
 //   0 initializer-style exact capacity, 1 push_back growth (capacity > size), 2 a copy of a
 //   cached vector (shared, refcount 2: Rust must clone the elements), 3 copy then detach by
-//   mutable access, 4 built, cleared and refilled
+//   mutable access, 4 built, cleared and refilled, 5 reused scratch vector (capacity > size)
 // ---------------------------------------------------------------------------------------------
 struct TableProvider : public resolvo::DependencyProvider {
     const Table &T;
@@ -197,9 +197,20 @@ struct TableProvider : public resolvo::DependencyProvider {
                 }
                 return b;
             }
-            default: {
+            case 4: {
                 resolvo::Vector<E> v;
                 for (auto x : src) v.push_back(conv(x));
+                v.clear();
+                for (auto x : src) v.push_back(conv(x));
+                return v;
+            }
+            default: {
+                // a reused scratch vector: filled with more elements than needed, cleared, refilled:
+                // capacity > size when it reaches Rust (both sides must agree which header word is which)
+                resolvo::Vector<E> v;
+                for (auto x : src) v.push_back(conv(x));
+                for (auto x : src) v.push_back(conv(x));
+                if (!src.empty()) v.push_back(conv(src[0]));
                 v.clear();
                 for (auto x : src) v.push_back(conv(x));
                 return v;
@@ -402,8 +413,10 @@ static bool check_table(const std::vector<uint32_t> &tab, bool all_modes) {
     std::string ref(buf.data(), std::min(n, buf.size() - 1));
     Table T = parse(tab.data());
     bool ok = true;
-    int modes = all_modes ? 5 : 2;
-    for (int mode = 0; mode < modes; ++mode) {
+    int modes = all_modes ? 6 : 2;
+    for (int mi = 0; mi < modes; ++mi) {
+        // the reduced mode set is {exact, scratch-reuse}
+        int mode = all_modes ? mi : (mi == 0 ? 0 : 5);
         for (int pre = 0; pre < 2; ++pre) {
             if (pre == 1 && mode > 1) continue;
             uint64_t before = rv_outstanding();
